@@ -8,6 +8,7 @@ import (
 	"bytes"
 	"context"
 	"errors"
+	"fmt"
 	"io"
 	"strings"
 	"testing/iotest"
@@ -49,9 +50,10 @@ var injectedErrors = []error{
 	cvsserr.ErrNullPointer, // an error that *is* another sentinel of the library
 	errors.New("EINTR"),
 	io.ErrNoProgress,
+	fmt.Errorf("connection reset while reading the template: %w", io.EOF), // wraps io.EOF without being it
 }
 
-var injectedErrorNames = []string{"own", "unexpected-eof", "closed-pipe", "canceled", "other-sentinel", "eintr", "no-progress"}
+var injectedErrorNames = []string{"own", "unexpected-eof", "closed-pipe", "canceled", "other-sentinel", "eintr", "no-progress", "wrapped-eof"}
 
 // faultStats counts what actually fired.
 type faultStats struct {
